@@ -47,6 +47,9 @@ def _payload(rng, n):
 
 def _build(rng):
     nrec = rng.choice([0, 1, 1, 2, 2, 3, 5, 8, 12])
+    many = rng.random() < 0.02
+    if many:
+        nrec = rng.choice([255, 256, 257, 300, 700])  # more records than any 8-bit counter holds
     recs = []
     d_kind = rng.random()
     delta = 0 if d_kind < 0.25 else rng.choice([1, -1, 0x200, -0x200]) if d_kind < 0.6 else rng.randint(-0x8000, 0x8000)
@@ -70,6 +73,8 @@ def _build(rng):
             big_left -= 1
         if delta + lo == 0 and lo < 0x20000:
             n = min(n, 200)
+        if many:
+            n = rng.choice([1, 1, 2, 3])
         p = rng.random()
         if p < 0.35:
             off = prev_end  # adjacent
